@@ -715,12 +715,15 @@ Section Head.
     (k = Pipe -> enq_first = false) -> (k = Bypass -> enq_first = true) ->
     f_msg (snd (cl_step k n enq_first q o)) = cl_peek (cl_at_consumer enq_first q o (snd (cl_step k n enq_first q o))).
   Proof.
-    intros Hn Hq. unfold cl_step, cl_at_consumer, cl_peek, cl_deq, cl_enq.
-    destruct k; cbn [snd fst f_deq_fire f_enq_fire f_msg].
-    - destruct enq_first; cbn [andb]; intros H _ _; rewrite H; cbn [snd];
+    intros Hn Hq Hf Hp Hb.
+    destruct k.
+    - destruct enq_first; unfold cl_step, cl_at_consumer, cl_peek, cl_deq, cl_enq in *; cbv zeta in *;
+        cbn [snd fst f_deq_fire f_enq_fire f_msg andb] in *; rewrite Hf;
         destruct (o_enq o && cl_enq_rdy n q); reflexivity.
-    - intros H Hp _. rewrite (Hp eq_refl). cbn [andb]. rewrite H. reflexivity.
-    - intros H _ Hb. rewrite (Hb eq_refl). cbn [andb]. rewrite H. cbn [snd].
-      destruct (o_enq o && cl_enq_rdy n q); reflexivity.
+    - rewrite (Hp eq_refl) in *. unfold cl_step, cl_at_consumer, cl_peek, cl_deq, cl_enq in *; cbv zeta in *;
+        cbn [snd fst f_deq_fire f_enq_fire f_msg andb] in *. rewrite Hf. reflexivity.
+    - rewrite (Hb eq_refl) in *. unfold cl_step, cl_at_consumer, cl_peek, cl_deq, cl_enq in *; cbv zeta in *;
+        cbn [snd fst f_deq_fire f_enq_fire f_msg andb] in *. rewrite Hf.
+        destruct (o_enq o && cl_enq_rdy n q); reflexivity.
   Qed.
 End Head.
